@@ -51,7 +51,9 @@ func (c06) Gen(r *rand.Rand, tier string, idx int) *core.Plan {
 	w["rootEnd"] = int64(core.Pick(r, 2, 2, 2, 1))
 	w["expiry"] = int64(r.IntN(3)) // none, 1h, 3h
 	w["tsaMode"] = int64(r.IntN(4)) // 0 no tsa store, 1 listed + unset, 2 always, 3 afterCertExpiry
-	w["counter"] = int64(core.Pick(r, 0, 1, 1, 1, 2, 3, 4, 5, 6, 7, 8, 9, 9, 9, 10))
+	w["counter"] = int64(core.Pick(r, 0, 1, 1, 1, 2, 3, 4, 5, 6, 7, 8, 9, 9, 9, 10, 11, 12))
+	// signing-authority: where the (authentic) signing time lies relative to the leaf's window; 0 = honest
+	w["rogue"] = int64(core.Pick(r, 0, 0, 1, 2, 3, 4, 5))
 	w["viaSigner"] = int64(r.IntN(2))
 	w["skew"] = int64(r.IntN(8))
 	w["accuracy"] = int64(core.Pick(r, 0, 1, 5, 0, 2))
@@ -107,6 +109,7 @@ func (l c06) Exec(env *core.Env) *core.Result {
 		}
 		// skew: place genTime relative to the tightest window
 		var gen time.Time
+		var signedTime time.Time
 		sign := func() ([]byte, error) {
 			signAt := time.Now()
 			if expDur > 0 {
@@ -122,6 +125,27 @@ func (l c06) Exec(env *core.Env) *core.Result {
 				return b, err
 			}
 			so := world.SignOpts{MediaType: format, Scheme: scheme, SigningTime: signAt, Expiry: expiry}
+			if scheme == signature.SigningSchemeX509SigningAuthority && w["rogue"] != 0 && format == world.JWS {
+				// a signing authority that stamps a time outside a certificate's validity (hand-assembled JWS)
+				nb, na := windows[0].NotBefore, ends[0]
+				switch w["rogue"] {
+				case 1:
+					signedTime = nb.Add(-time.Second) // one second before the window
+				case 2:
+					signedTime = nb // exactly NotBefore: inside
+				case 3:
+					signedTime = na // exactly NotAfter: inside
+				case 4:
+					signedTime = na.Add(time.Second) // one second after the leaf's window
+				case 5:
+					signedTime = ends[1].Add(time.Second) // after the intermediate's window
+				}
+				if !expiry.IsZero() && !expiry.After(signedTime) {
+					expiry = signedTime.Add(expDur)
+				}
+				return world.RogueJWS(chain, world.PayloadFor(desc), scheme, signedTime, expiry)
+			}
+			signedTime = signAt
 			b, err := world.SignPayload(chain, world.PayloadFor(desc), so)
 			if err != nil || counter == 0 || scheme != signature.SigningSchemeX509 {
 				return b, err
@@ -136,6 +160,12 @@ func (l c06) Exec(env *core.Env) *core.Result {
 			}
 			issuer := tsa
 			switch counter {
+			case 11: // bytes that are no token at all
+				out, ok := world.SetTimestampSignature(format, b, []byte("this is not a timestamp token"))
+				if !ok {
+					return nil, fmt.Errorf("cannot splice")
+				}
+				return out, nil
 			case 2:
 				issuer.WrongImprint = true
 			case 9:
@@ -167,6 +197,7 @@ func (l c06) Exec(env *core.Env) *core.Result {
 				}
 			}
 			gen = time.Now().Add(issuer.Skew).UTC().Truncate(time.Second)
+			issuer.NoCerts = counter == 12 // a token that does not carry the TSA's certificates
 			tok, err := issuer.TokenOver(content.SignerInfo.Signature)
 			if err != nil {
 				return nil, err
@@ -237,7 +268,7 @@ func (l c06) Exec(env *core.Env) *core.Result {
 			instants = append(instants, t)
 		}
 		sort.Slice(instants, func(i, j int) bool { return instants[i].Before(instants[j]) })
-		config := fmt.Sprintf("scheme=%d fmt=%d ends=%d/%d/%d expiry=%d tsaMode=%d counter=%d skew=%d acc=%d.%03d", w["scheme"], w["format"], w["leafEnd"], w["interEnd"], w["rootEnd"], w["expiry"], tsaMode, counter, w["skew"], w["accuracy"], w["accMillis"])
+		config := fmt.Sprintf("scheme=%d fmt=%d ends=%d/%d/%d expiry=%d tsaMode=%d counter=%d skew=%d acc=%d.%03d rogue=%d", w["scheme"], w["format"], w["leafEnd"], w["interEnd"], w["rootEnd"], w["expiry"], tsaMode, counter, w["skew"], w["accuracy"], w["accMillis"], w["rogue"])
 		for _, at := range instants {
 			if d := at.Sub(time.Now()); d > 0 {
 				rt.Sleep(d)
@@ -294,7 +325,12 @@ func (l c06) Exec(env *core.Env) *core.Result {
 			var wantTSPass bool
 			why := ""
 			if scheme == signature.SigningSchemeX509SigningAuthority {
-				wantTSPass, why = true, "signing-authority: every certificate was valid at the authentic signing time"
+				st := signedTime.Truncate(time.Second)
+				wantTSPass = allValidAt(st)
+				why = fmt.Sprintf("signing-authority: every certificate must have been valid at the authentic signing time %s (rogue=%d)", st.Format(time.RFC3339), w["rogue"])
+				if !wantTSPass {
+					res.Probe("signing_authority_time_outside_a_window")
+				}
 			} else {
 				expired := false
 				for _, c := range windows {
